@@ -317,8 +317,10 @@ def layer_crash(ctx, tmp):
         if ctx.shard == 0:
             ctx.note('%s: file-system steps of a complete store: %s' % (tname, full['trace']))
         plans = [('audit', k) for k in range(1, n_audit + 1)] + [('line', k) for k in range(1, n_line + 1)]
-        plans += [('raise-KeyboardInterrupt', k) for k in range(1, n_line + 1, 1 if not ctx.quick else 3)]
-        plans += [('raise-MemoryError', k) for k in range(2, n_line + 1, 2 if not ctx.quick else 5)]
+        # an exception at every line step on both tiers (a stride would leave out single statements, and the statement between
+        # two others is exactly where an ordering mistake shows); the second exception type alternates in the quick tier
+        plans += [('raise-KeyboardInterrupt', k) for k in range(1, n_line + 1)]
+        plans += [('raise-MemoryError', k) for k in range(1, n_line + 1, 1 if not ctx.quick else 2)]
         # a file-size limit reached while the module is stored (disk full / quota): limits from a few bytes up to the module size
         size = max(len(x) for x in ref_files.values()) if ref_files else 4000
         limits = sorted({1, 60, 1000, size // 3, size // 2, size - 1000, size - 1, size, size + 50} - {0}) if not ctx.quick else \
